@@ -15,7 +15,8 @@ op    = [1 add|2 replace|3 delete|4 delete_exact, [arg...]] | [5, value, relativ
 arg   = [0, labels] Name | [1, labels] str name | [2, rds] Rdataset | [3, labels, rds] RRset | [4, int]
         | [5, [rdtype, covers, body, aux, rdclass]] Rdata | [6, rdtype] type as text | [7] None
 rds   = [rdtype, covers, ttl, [[body, aux]...], rdclass]
-obs   = per txn [ [op results...], [len(zone.nodes), [node or None per probe]] ]
+obs   = per txn [ [op results...], [len(zone.nodes), [node or None per probe]],
+                  [per probe: is zone.get_node(probe) the same object as before the txn (None if absent)] ]
 """
 import base64
 import itertools
@@ -310,16 +311,32 @@ def full_dump(z):
     return out
 
 
+def node_objects(z, probes):
+    return [z.get_node(dns.name.Name(p)) for p in probes]
+
+
+def all_node_objects(z):
+    return list(z.nodes.values())
+
+
 def run_case(case, full=False):
     cfg, probes, hist = case
     kind, rel, origin = cfg
     z = ZONES[kind](dns.name.Name(origin), relativize=bool(rel))
     out = []
     for mode, style, ops, fault in hist:
+        before = node_objects(z, probes)
+        if full:
+            old_objs = all_node_objects(z)
+            old_dumps = [dump_node(n) for n in old_objs]
         res = run_txn(z, mode, style, ops, fault)
-        o = [res, observe(z, probes)]
+        after = node_objects(z, probes)
+        ident = [None if (b is None or a is None) else int(a is b) for b, a in zip(before, after)]
+        o = [res, observe(z, probes), ident]
         if full:
             o.append(full_dump(z))
+            # the node objects of the previously published zone, as they are now
+            o.append(int([dump_node(n) for n in old_objs] == old_dumps))
         out.append(o)
     return out
 
@@ -331,7 +348,7 @@ def impl(case):
     full = run_case(case, full=True)
     _full.clear()
     _full[repr(case)] = full
-    return [t[:2] for t in full]
+    return [t[:3] for t in full]
 
 
 # ------------------------------------------------------------------ the reference model (property text)
@@ -660,7 +677,10 @@ def oracle(ctx, kind, case, out):
                      sig="result", txn=i, op=j, op_kind=(ops[j][0] if j < len(ops) else -1))
                 bad = True
                 break
-        after = full[i][2]
+        after = full[i][3]
+        if not full[i][4]:
+            fail(f"a node object of the published zone was mutated in place ({tag})", sig="aliasing", txn=i)
+            bad = True
         if after != ref.dump():
             committed = ref.dump() != before
             fail(("zone content after commit differs from the reference model" if committed else
